@@ -1,9 +1,9 @@
 #!/bin/bash
 # usage: tools/seed_verify_only.sh <prefix e.g. /tmp/wt2-> C02 C03 ...
 pre="$1"; shift
-for id in "$@"; do for m in a b; do
+for id in "$@"; do for m in a b c; do
   d=${pre}$id/mutant
-  [ -f $d/$m.diff ] || { echo "##### $id-$m (no patch)"; continue; }
+  [ -f $d/$m.diff ] || continue
   v=$(tools/verify_seed.sh $d/$m.diff $d/demo_$m.rs 2>&1)
   clean=$(echo "$v" | sed -n '/unmodified tree/,/build with/p' | grep -c "test result: ok")
   suite=$(echo "$v" | sed -n '/existing suite/,/demo with the mutant/p' | grep "test result" | grep -vc "ok\.")
